@@ -195,6 +195,37 @@ func (w *World) Func(q string) *FuncInfo {
 		if base == nil {
 			return nil
 		}
+		sel := q[i+1:]
+		if strings.HasPrefix(sel, "calls:") {
+			// the unique literal whose own body (not nested literals) calls the callee
+			ns := Names(strings.TrimPrefix(sel, "calls:"))
+			var hit *FuncInfo
+			for _, c := range base.Closures() {
+				found := false
+				InspectNode(c.Lit.Body, func(x ast.Node) bool {
+					if call, ok := x.(*ast.CallExpr); ok && ns.Has(Callee(c.Info(), call)) {
+						found = true
+					}
+					return true
+				})
+				if found {
+					if hit != nil {
+						// nested: prefer the innermost
+						if hit.Lit.Pos() <= c.Lit.Pos() && c.Lit.End() <= hit.Lit.End() {
+							hit = c
+							continue
+						}
+						return nil
+					}
+					hit = c
+				}
+			}
+			if hit != nil {
+				hit.Name = q
+			}
+			w.funcs[q] = hit
+			return hit
+		}
 		for _, c := range base.Closures() {
 			if c.Name == q {
 				w.funcs[q] = c
